@@ -28,6 +28,13 @@ SIM = {
     "65816": ("lda #0x%02x", 8, r" A=0x00([0-9a-f]{2}) ", r" PC=0x([0-9a-f]+)", 2),
 }
 
+# load-from-memory templates (data address) for "what the simulator fetches is what write* put there"
+SIMF = {
+    "msp430": [("mov.w &0x%04x, r7", 16), ("mov.w 0x%04x, r7", 16), ("mov.b &0x%04x, r7", 8), ("mov.b 0x%04x, r7", 8)],
+    "6502": [("lda 0x%04x", 8)],
+    "z80": [("ld a, (0x%04x)", 8)],
+}
+
 PROMPT = re.compile(r"^(stopped|running|asm)> ?(.*)$")
 
 
@@ -90,8 +97,10 @@ class C19(Engine):
         if rng.chance(1, 2):
             n = rng.range(1, 300)
             addr = base * bpa if rng.chance(2, 3) else rng.pick([0, 0x40]) * bpa
-            fmt = rng.pick(["bin", "hex"])
-            load = {"fmt": fmt, "addr": addr, "data": rng.bytes(n).hex(), "set_pc": None}
+            fmt = rng.pick(["bin", "hex", "hex", "ti_txt"])
+            if fmt == "ti_txt" and addr + n > 0x10000:
+                fmt = "hex"
+            load = {"fmt": fmt, "addr": addr, "data": rng.bytes(n).hex(), "set_pc": None, "ending": rng.pick(["q\n", "q", "q\r\n"])}
             if rng.chance(1, 3) and cpu in SIM:
                 load["set_pc"] = (addr // bpa) + rng.below(8) * (2 if align >= 2 and bpa == 1 else 1)
             if fmt == "bin" and bpa != 1:
@@ -154,7 +163,12 @@ class C19(Engine):
             elif k == 15 and cpu in SIM:
                 tmpl, bits, rre, pcre, ilen = SIM[cpu]
                 a = (base & 0x3fff) + 0x300 + rng.below(0x20) * max(align, 2) // bpa
-                plan["ops"].append({"op": "simstep", "addr": a, "imm": rng.below(1 << bits)})
+                if cpu in SIMF and rng.chance(1, 2):
+                    f = rng.below(len(SIMF[cpu]))
+                    d = 0x240 + 2 * rng.below(32) + (a & 0x3000)
+                    plan["ops"].append({"op": "simstep", "addr": a, "imm": rng.below(1 << SIMF[cpu][f][1]), "fetch": f, "daddr": d})
+                else:
+                    plan["ops"].append({"op": "simstep", "addr": a, "imm": rng.below(1 << bits)})
             elif k < 19 and rng.chance(1, 4):
                 # a blank line repeats the previous command word (readline build); after a write or print
                 # that is a command without arguments, which must change nothing
@@ -189,6 +203,13 @@ class C19(Engine):
                 if load["addr"]:
                     argv += ["-address", "0x%x" % load["addr"]]
                 argv.append("img.bin")
+            elif load["fmt"] == "ti_txt":
+                # TI-TXT written by the harness: @ADDR, 16 bytes per line, terminated by q
+                out = ["@%04X" % load["addr"]]
+                for i in range(0, len(data), 16):
+                    out.append(" ".join("%02X" % b for b in data[i:i + 16]))
+                files["/sim/w/img.txt"] = ("\n".join(out) + "\n" + load.get("ending", "q\n")).encode()
+                argv.append("img.txt")
             else:
                 # Intel HEX written by the harness from the published format
                 out = []
@@ -221,6 +242,9 @@ class C19(Engine):
             if op["op"] == "simstep":
                 tmpl = SIM[cpu][0]
                 src = ".%s\n.org 0\n  %s\n" % (cpu, tmpl % op["imm"])
+                if "fetch" in op:
+                    # position dependent (symbolic mode): assembled where it will be placed
+                    src = ".%s\n.org 0x%x\n  %s\n" % (cpu, op["addr"], SIMF[cpu][op["fetch"]][0] % op["daddr"])
                 o = ex.call(build_request(MODE_ASM, ["naken_asm", "-type", "bin", "-o", "i.bin", "a.asm"], {"/sim/w/a.asm": src.encode()}))
                 res.absorb(o)
                 digests.append(o.digest())
@@ -285,6 +309,11 @@ class C19(Engine):
                     continue
                 blob = sim_bytes[i]
                 a = op["addr"]
+                if "fetch" in op:
+                    w = 2 if SIMF[cpu][op["fetch"]][1] == 16 else 1
+                    console.append("%s 0x%x 0x%x" % ("write16" if w == 2 else "write", op["daddr"], op["imm"]))
+                    expect.append(("write", (w, op["daddr"], [op["imm"]])))
+                    touch(op["daddr"] * bpa, w)
                 console.append("write 0x%x %s" % (a, " ".join("0x%02x" % b for b in blob)))
                 expect.append(("write", (1, a, list(blob))))
                 touch(a * bpa, len(blob))
